@@ -51,8 +51,8 @@ CORPUS = [
     mk(40e-7, 1e-7, 2.5e-7, sched="3:0:R", tag="corpus-empty"),
     # a removal in a recorded iteration (50): the row of the removed cell is still written; first of two cells removed
     mk(70e-7, 1e-7, 7.3e-7, n=2, sched="50:0:R", instr=1, tag="corpus-removed-in-recorded-iteration"),
-    # division (iteration 5 is a divider iteration)
-    mk(23e-7, 1e-7, math.pi * 1e-7, mesh="ico1", n=1, sched="5:0:D", tag="corpus-division"),
+    # division (iteration 5 is a divider iteration), then removal of a daughter
+    mk(23e-7, 1e-7, math.pi * 1e-7, mesh="ico1", n=1, sched="5:0:D,12:1:R", tag="corpus-division"),
     # division at 50 (recorded, divider iteration), later both daughters removed in the same iteration: empty population
     mk(80e-7, 1e-7, 1.5e-7, mesh="ico1", n=1, sched="50:0:D,57:0:R,57:1:R", instr=1, tag="corpus-division-extinction"),
 ]
@@ -71,33 +71,28 @@ def gen_case(r, tier):
     S = dt * ratio
     if S < dt:          # rounding of the product: the property is quantified over S >= dt
         S = dt
-    nmax = 120 if tier == "quick" else 330
+    nmax = 200 if tier == "quick" else 400
     niter = r.choice([1, 2, 3, 7, 49, 50, 51, 52, 100, 101]) if r.randint(0, 3) == 0 else r.randint(1, nmax)
     frac = r.choice([0.0, 0.0, 0.5, r.uniform(0.01, 0.99)])
     T = dt * (niter - 1 + (frac if frac > 0 else 1.0))
-    mesh = "ico1" if (phys and r.randint(0, 4) == 0) else "cube"
+    mesh = "ico1" if (phys and r.randint(0, 2) == 0) else "cube"
     n = r.choice([1, 1, 2, 2, 3])
     sched = []
-    nev = r.choice([0, 0, 1, 1, 2, 3])
-    # a division makes two daughters in contact; a cell in contact with a removed one becomes unstable a few iterations later
-    # (solver throws "refinement failed": another property's business), so: divisions XOR single removals, and cells in
-    # contact only in runs without removals.  The removal of the whole population in one iteration is always possible.
-    divide = mesh == "ico1" and r.randint(0, 2) > 0
+    nev = r.choice([0, 0, 1, 1, 2, 3]) if n > 1 or mesh == "ico1" else r.choice([0, 0, 0, 1])
     for _ in range(nev):
         it = r.choice([0, 1, 49, 50, 51, 5, 10, 100, r.randint(0, max(0, niter - 1))])
         if it >= niter:
             it = r.randint(0, max(0, niter - 1))
-        sched.append("%d:%d:%s" % (it - it % 5 if divide else it, r.randint(0, 3), "D" if divide else "R"))
-    extinct = r.randint(0, 9) == 0
-    if extinct:      # the whole population disappears
+        if mesh == "ico1" and r.randint(0, 2) > 0:
+            sched.append("%d:%d:D" % (it - it % 5 if r.randint(0, 3) else it, r.randint(0, 3)))     # mostly in a divider iteration
+        else:
+            sched.append("%d:%d:R" % (it, r.randint(0, 3)))
+    if r.randint(0, 9) == 0:      # the whole population disappears in one iteration
         it = r.randint(0, max(0, niter - 1))
-        if divide and sched:
-            it = max(it, max(int(x.split(":")[0]) for x in sched) + 1)
         sched += ["%d:%d:R" % (it, p) for p in range(2 * (n + nev) + 1)]
     g = r.choice([0.0, 0.0, 0.4, -0.3, 1.0])
-    removals = any(x.endswith("R") for x in sched)
-    minv = r.choice([0.0, 0.0, 0.0, 0.999, 0.98]) if (phys and not divide) else 0.0
-    gap = r.choice([5.0, 5.0, 0.15]) if not (removals or minv > 0) else 5.0
+    minv = r.choice([0.0, 0.0, 0.0, 0.0, 0.0, 0.0, 0.999, 0.98]) if phys else 0.0
+    gap = r.choice([5.0, 5.0, 0.15])
     return mk(T, dt, S, mesh=mesh, n=n, instr=r.randint(0, 1), phys=phys, g=g, minv=minv, gap=gap, sched=",".join(sched), tag="gen")
 
 
@@ -661,7 +656,7 @@ def run(ctx):
     if not os.path.exists(drv) or (gen.get("Schedule", {}).get("error")):
         V.fail_tie("correspondence", "model driver missing (lake build failed)")
         drv = None
-    n = 34 if tier == "quick" else 520
+    n = 120 if tier == "quick" else 1500
     if not proof["ok"]:
         n = max(n, 120)          # a proof broke: widen the search for a concrete failing input
     r = Rng(seed)
@@ -682,7 +677,7 @@ def run(ctx):
                 "or arbitrary (1e-9..1e2, decimal fractions, inert cells), 1..%d iterations with T/dt integer / half-integer / random, 1-3 cells (cube, icosphere), "
                 "forced removals / divisions at first, last, recorded (0, 50, 100) and random iterations, whole population removed, growth, natural shrinking below the "
                 "minimum volume, file and in-memory statistics + corpus; distinct = distinct (ratio class, iterations, file pairs, divisions, removals, writer, mesh, cells)"
-                % (120 if tier == "quick" else 330),
+                % (200 if tier == "quick" else 400),
         "iterations_executed": st["iterations"], "file_pairs_written": st["files"], "vtk_files_parsed": st["files_parsed"],
         "files_reread_by_real_reader": st["reread"], "statistics_rows_checked": st["rows"], "values_compared": st["values"],
         "population_events": st["events"], "ratio_classes": st["ratio_classes"],
